@@ -8,6 +8,7 @@ connection.  Exceptions propagate unchanged.
 from __future__ import annotations
 
 import itertools
+import os
 import re
 import threading
 import time
@@ -118,7 +119,13 @@ class _Shim:
         self.roots: list[Tap] = []
 
     def connect(self, *a: Any, **k: Any) -> Tap:
-        t = Tap(self._m.connect(*a, **k))
+        real = self._m.connect(*a, **k)
+        # performance only: 16 workers x one engine thread pool per instance oversubscribe the machine otherwise
+        try:
+            real.execute(f"SET threads = {int(os.environ.get('FSVERIF_DUCKDB_THREADS', '2'))}")
+        except Exception:  # noqa: BLE001
+            pass
+        t = Tap(real)
         self.roots.append(t)
         if len(self.roots) > 64:
             del self.roots[:32]
